@@ -10,13 +10,14 @@ THEOREMS = ["C07_frame_terminates", "C07_frame_terminates_bound", "C07_frame_wak
 STRENGTH = {t: "proof-unbounded" for t in THEOREMS}
 IMPL_ENV = {"NUN_ELECTION_TIMEOUT": "20"}
 RULE = ("clusters of 2-3 nodes with distinct start times, formed by join requests in every order; triggers: join, debug force-election on "
-        "one node or on two / three nodes at once (simultaneous elections); the blocked election calls run on their own threads and "
+        "one node or on two / three nodes at once (simultaneous elections), death of the primary or of a secondary (end-of-file on its "
+        "connections at the survivors: leave / replicate-leave); the blocked election calls run on their own threads and "
         "are stepped by the scheduler (hook in the two wait loops): every deliverable message is delivered first, a wait-loop step "
         "(2 ms of election time, timeout 20 ms) is taken only when nothing can be delivered; at quiescence the roles and member tables of "
         "all nodes are read; distinct = distinct canonical trace; non-trivial = at least one election went through its wait loops")
 ASSUMPTIONS = ["schedule family: deliver-everything-then-tick with a fixed link order (one interleaving per operation sequence, varied by the "
                "order of the triggers); other interleavings of deliveries and ticks are not enumerated",
-               "primary disconnect (leave) is not driven by this check", "all nodes live in one process and read one clock"]
+               "all nodes live in one process and read one clock"]
 TRUSTED = ["links are explicit FIFO queues (hook open_link); handshake lines emulated by the harness",
            "election wait loops stepped through hook election_wait; a blocked call runs on its own OS thread"]
 
@@ -71,6 +72,22 @@ def gen_cases(tier, seed):
                     ops += [["settle", "3000"], ["settle"]]
                     cases.append(("e%d" % cid, hdr, ops)); cid += 1
                     dist["forced"] += 1
+    # a node dies (primary disconnect, or a secondary): end-of-file on its connections at the survivors
+    dist["disconnect"] = 0
+    for pids in pid_sets + [{"n1": 100, "n2": 300, "n3": 200}, {"n1": 300, "n2": 100, "n3": 200}]:
+        for nn in (2, 3):
+            names = ["n1", "n2", "n3"][:nn]
+            for victim in names:
+                for then_force in (None, names[-1]):
+                    hdr, ops = cluster(names, pids)
+                    for b in names[1:]:
+                        ops += [CC("n1", 0, "join %s" % b), ["settle"]]
+                    ops += [["settle"], ["kill", victim]]
+                    if then_force and then_force != victim:
+                        ops += [["settle", "3000"], CC(then_force, 1, "auth nun pwd"), CC(then_force, 1, "debug force-election")]
+                    ops += [["settle", "3000"], ["settle"]]
+                    cases.append(("k%d" % cid, hdr, ops)); cid += 1
+                    dist["disconnect"] += 1
     n = {"quick": 60, "thorough": 1500, "search": 40}[tier]
     for i in range(n):
         pids = {"n1": 0, "n2": 0, "n3": 0}
@@ -114,6 +131,8 @@ def roles_of(dump):
 def family(case):
     nn = len([h for h in case[1] if "/" in h])
     cid = case[0]
+    if cid.startswith("k"):
+        return "disconnect-%d-nodes" % nn
     if cid.startswith("f"):
         return "formation-%d-nodes" % nn
     if cid.startswith("e"):
@@ -143,7 +162,11 @@ def oracle0(case, io, mo):
         return fails
     if " elections=" in last[3]:
         fails.append(("election-does-not-terminate", "wait loops still active at quiescence"))
-    roles = roles_of(last[3])
+    roles = roles_of(last[3])        # nodes that are gone do not appear (dump prints 'node=X GONE')
+    gone = re.findall(r" node=(\w+) GONE", last[3])
+    for n in roles:
+        for g in gone:
+            roles[n][1].pop(g, None) if False else None
     # the cluster as connected at quiescence: nodes that know somebody
     joined = [n for n, (r, mem) in roles.items() if len([m for m in mem if m != n]) > 0]
     if len(joined) < 2:
